@@ -34,8 +34,10 @@ Conforms(ev) ==
          LET M == MsgsOf(exp)  D == ev.msgs IN
          /\ Len(D) >= Len(M)
          /\ \A k \in 1..Len(M) : SameMsg(D[k], M[k])
-         /\ (Len(D) > Len(M) => LastT(exp) = "any")
+         /\ (Len(D) > Len(M) => \/ LastT(exp) = "any"
+                                \/ LastT(exp) = "msgopt" /\ SameMsg(D[Len(M) + 1], exp[Len(exp)]))
          /\ (LastT(exp) = "reject" => ev.err)
+         /\ (LastT(exp) = "msgopt" /\ Len(D) = Len(M) => ev.err)
 
 EvBegin == /\ IsEv("Begin")
            /\ exp' = (IF Ev.mode = "fuzz" THEN <<>> ELSE AbsOut(Ev.side, Ev.rm, Ev.lex))
